@@ -401,6 +401,16 @@ func runDir(dir string, e *DirEdge, seed int64, rec map[string]string) {
 		}
 		var ents []ent
 		sup, unsup := []byte(rec["sup"]), []byte(rec["unsup"])
+		switch seed % 4 { // the flavours of "holds no supported hash": unknown set id, a set id of the other algorithm, garbage, empty
+		case 1:
+			unsup = []byte(rec["unsup-mismatch"])
+		case 2:
+			unsup = []byte("not a record at all\n")
+		case 3:
+			if seed%8 == 3 {
+				unsup = []byte(rec["unsup-mismatch2"])
+			}
+		}
 		slot := func(n, s string) {
 			switch s {
 			case "user-sup":
@@ -540,7 +550,12 @@ func main() {
 	ps := sets[1]
 	ps.ID = 9
 	unsupLine, _ := concrete.MakeRecord(ps, []byte("pw"), 1500000000, rng)
-	rec := map[string]string{"sup": supLine, "unsup": unsupLine}
+	// a well-formed payload whose algorithm label does not belong to the (configured) parameter set it names
+	mm := strings.SplitN(supLine, ":", 2)
+	argonLine, _ := concrete.MakeRecord(sets[2], []byte("pw"), 1500000000, rng)
+	am := strings.SplitN(argonLine, ":", 3)
+	rec := map[string]string{"sup": supLine, "unsup": unsupLine, "unsup-mismatch": "argon2id:" + mm[1],
+		"unsup-mismatch2": am[0] + ":" + am[1] + ":1:" + strings.SplitN(am[2], ":", 2)[1]}
 	type item struct {
 		r *RecEdge
 		d *DirEdge
